@@ -239,7 +239,8 @@ def split_cases(tier):
             for target in SPLIT_TARGETS:
                 for closed_by in ("with", "close"):
                     sl = 1 + (N + L) % 3
-                    cases.append({"N": N, "L": L, "suffix": sl, "target": target, "closed_by": closed_by})
+                    cases.append({"N": N, "L": L, "suffix": sl, "target": target, "closed_by": closed_by,
+                                  "relative": (N + L) % 4 == 0})
     return cases
 
 
@@ -256,10 +257,24 @@ def check_split(case, ctx):
         name = {"plain": "out.records", "gz": "out.records.gz", "jsonfile": "out.json", "avro": "out.avro"}[target]
         sub = {"plain": "", "gz": "", "jsonfile": "jsonfile", "avro": "avro"}[target]
         path = os.path.join(tmp, name)
-        uri = ("split+%s://%s" % (sub, path) if sub else "split://" + path) + "?count=%d&suffix-length=%d" % (L, sl)
+        relative = bool(case.get("relative"))
+        if relative:
+            ctx.cls("split:bare-relative-name")
+        target_name = name if relative else path  # a bare file name, resolved against the working directory
+        uri = ("split+%s://%s" % (sub, target_name) if sub else "split://" + target_name) + "?count=%d&suffix-length=%d" % (L, sl)
         recs = [mkrec(i) for i in range(N)]
 
         def run():
+            if relative:
+                old = os.getcwd()
+                os.chdir(tmp)
+                try:
+                    return _run()
+                finally:
+                    os.chdir(old)
+            return _run()
+
+        def _run():
             w = RecordWriter(uri)
             if closed_by == "with":
                 with w:
